@@ -114,10 +114,12 @@ func (fr *frame) get(key ssa.Value) value {
 		if r, ok := fr.in.globals[key]; ok {
 			return r
 		}
-		// lazily allocate globals of packages that were not initialised
+		// a global of a package whose init was not executed: fine if its init never touches it
+		if key.Pkg != nil && fr.in.P.initRefs(key.Pkg)[key] && !strings.HasSuffix(key.Name(), "init$guard") {
+			panic(unsupported{"global " + key.String() + " is set by its package initializer: add " + key.Pkg.Pkg.Path() + " to spec.init"})
+		}
 		cell := zero(deref(key.Type()))
 		fr.in.globals[key] = &cell
-		fr.in.noteOnce("global of an uninitialised package read: " + key.String())
 		return &cell
 	}
 	if r, ok := fr.env[key]; ok {
@@ -509,6 +511,9 @@ func (in *Interp) callSSA(caller *frame, callpos token.Pos, fn *ssa.Function, ar
 		fr.g = in.sched.cur
 	}
 	if fn.Parent() == nil {
+		if fn.Synthetic == "package initializer" && fn.Pkg != nil && !in.initWant[fn.Pkg.Pkg.Path()] {
+			return nil // init of a package the harness did not ask for
+		}
 		name := funcKey(fn)
 		if h := in.dispatch(fn, name); h != nil {
 			return h(in, fr, args)
@@ -566,11 +571,81 @@ func (in *Interp) runFrame(fr *frame) {
 			}
 		}
 	}()
+	tolerant := fr.fn.Synthetic == "package initializer" && fr.fn.Pkg != nil && !strings.HasPrefix(fr.fn.Pkg.Pkg.Path(), "github.com/rqlite/rqlite")
 	for {
 		nonPhis := in.executePhis(fr)
 		for _, instr := range nonPhis {
-			if in.visitInstr(fr, instr) == kReturn {
+			var k continuation
+			if tolerant {
+				k = in.visitTolerant(fr, instr)
+			} else {
+				k = in.visitInstr(fr, instr)
+			}
+			if k == kReturn {
 				return
+			}
+		}
+	}
+}
+
+// poison marks a value that a standard-library package initializer could not compute. Any use
+// of it outside an initializer stops the run (fail closed).
+type poison struct{ why string }
+
+// visitTolerant executes one instruction of a std package initializer; failures of the
+// engine (unsupported features, reflection, body-less callees) poison the result instead of
+// ending the path.
+func (in *Interp) visitTolerant(fr *frame, instr ssa.Instruction) (k continuation) {
+	if iff, ok := instr.(*ssa.If); ok {
+		if _, bad := fr.get(iff.Cond).(poison); bad {
+			// cannot continue this initializer: poison everything it has not stored yet
+			in.poisonRest(fr.fn.Pkg, "initializer aborted at a poisoned branch")
+			fr.block = nil
+			return kReturn
+		}
+	}
+	defer func() {
+		if r := recover(); r != nil {
+			switch r.(type) {
+			case pathEnd, pathAbort, targetPanic:
+				panic(r)
+			}
+			why := fmt.Sprint(r)
+			if u, ok := r.(unsupported); ok {
+				why = u.what
+			}
+			if v, ok := instr.(ssa.Value); ok {
+				fr.env[v] = poison{why}
+			}
+			if st, ok := instr.(*ssa.Store); ok {
+				// a store of/through a poisoned operand: poison the target if it is a global
+				if g, ok := st.Addr.(*ssa.Global); ok {
+					if cell, ok := in.globals[g]; ok {
+						*cell = poison{why}
+					}
+				}
+			}
+			k = kNext
+		}
+	}()
+	if st, ok := instr.(*ssa.Store); ok {
+		if pv, bad := fr.get(st.Val).(poison); bad {
+			if p, ok := fr.get(st.Addr).(*value); ok && p != nil {
+				*p = pv
+			}
+			return kNext
+		}
+	}
+	return in.visitInstr(fr, instr)
+}
+
+func (in *Interp) poisonRest(p *ssa.Package, why string) {
+	for _, m := range p.Members {
+		if g, ok := m.(*ssa.Global); ok {
+			if in.P.initRefs(p)[g] {
+				if cell, ok := in.globals[g]; ok {
+					*cell = poison{why}
+				}
 			}
 		}
 	}
